@@ -7,80 +7,84 @@ NOTE = ("Trusted: Lean 4.33 kernel; axioms propext/Classical.choice/Quot.sound o
         "read-only verif hooks; the Lean compiler for the correspondence driver only; Go runtime and standard library. ")
 
 CLAIMS = {
- 'C01': dict(cat='proof', tech='Lean 4 model + FIDE spec; differential correspondence; spec oracle',
-   text="Lean model of both generators, CanCastleNow, MakeMove and the legality filter, tied to the Go code by differential correspondence "
-        "(ordered pseudo-legal list, legal list, perft) on corpus, playout and random-material positions; the property itself is decided against "
-        "an executable FIDE specification in Lean (mailbox board, (file,rank) geometry) used as oracle: Go's legal move set == spec legal set, "
-        "perft(Go) == perft(spec). Theorems proved so far are listed in evidence (attack-layer exactness feeding the generators); the full "
-        "legal_exact theorem is staged (DESIGN 5/C01, 6).",
-   ref='5/C01'),
- 'C02': dict(cat='proof', tech='Lean 4 model of MakeMove vs FIDE successor spec; correspondence',
-   text="Lean model of MakeMove (every field) tied by correspondence on every pseudo-legal move of generated positions; the successor is compared "
-        "with Fide.apply (spec) through the printed FEN; copy-recoverability asserted on the Go side.", ref='5/C02'),
- 'C03': dict(cat='proof', tech='Lean 4 model of move text round trip and position fold; correspondence',
-   text="Model of SquareFromString/Move.String/MakeMoveFromString and of the position-command fold; games up to 140 plies replayed through the "
-        "model and the spec fold (Fide.apply) and compared with the Go result; every printed legal move is parsed back on the Go side.", ref='5/C03'),
- 'C09': dict(cat='proof', tech='Lean 4 proof of incremental = from-scratch hash; correspondence',
-   text="Zobrist model over an arbitrary key table; incremental hash after every move / null move / FEN load compared with the from-scratch hash "
-        "(hook) on the Go side and with the model; path independence via FEN reload.", ref='5/C09'),
- 'C10': dict(cat='proof', tech='Lean 4 invariant (WF) + correspondence of every field',
-   text="Executable well-formedness predicate (content of C10) in Lean; every field of Position compared after each operation; an independent "
-        "Go-side mailbox check of the consistency clauses; check clause against the spec.", ref='5/C10'),
- 'C11': dict(cat='proof', tech='Lean 4 model of FEN parser/printer at byte level; totality; correspondence',
-   text="Byte-level model of NewFromFen/ToFen (Go rune decoding, unicode.IsDigit table from the runtime, uint8 cursor arithmetic, Atoi); valid and "
-        "malformed streams compared three-way ok/error/panic with all fields; round trip asserted on the Go side.", ref='5/C11'),
- 'C12': dict(cat='proof', tech='Lean 4 proof over all occupancies (walker = geometry, kernel-checked magic tables); correspondence',
-   text="Shifts, leapers, pawn pushes, ray walker, magic table construction and lookup modelled; magic multipliers dumped from the running code "
-        "into the model; all leaper entries, table entries and random full occupancies compared with the model and with the geometric spec; "
-        "SquareAttackedBy/IsInCheck on generated positions x 64 squares against the spec.", ref='5/C12'),
- 'C17': dict(cat='proof', tech='Lean 4 model of both generators; filter equality; correspondence',
-   text="Model of GeneratePseudoLegalCaptures and GeneratePseudoLegalMoves; ordered lists compared; the property itself (captures == capturing "
-        "moves of the full generator as multisets) asserted on the Go side for every generated position.", ref='5/C17'),
- 'C04': dict(cat='proof', tech='Lean 4 executable model of the whole search; black-box correspondence; spec judge of answers and PVs',
-   text="Lean model of Search/SearchIterative/SearchRoot/negamax/quiescence with TT, killers, history, SEE, all pruning and int16 wrap-around, "
-        "cancellation as an oracle (n-th poll); sequences of searches sharing the tables are compared with the Go code on best move, every info "
-        "line (depth, score, nodes, PV) and poll count, with cancellation at chosen polls; the answer and every printed PV are judged by the FIDE "
-        "spec (legal sequence from the root, answer = head of the last PV, null move only without legal moves), also for Go-only searches to depth 5.",
-   ref='5/C04'),
- 'C05': dict(cat='proof', tech='Lean 4 model of search with cancellation oracle + time budget proof; correspondence; measured wall-clock',
-   text="Cancellation at every chosen poll index is replayed in the Lean search model (same nodes, same polls); Go-side assertions: search "
-        "terminates, requested depth never exceeded, no node after the cancellation was noticed unless no iteration had completed (single depth-1 "
-        "fallback); budget below clock/movetime (C08 model); wall-clock of movetime/clock-limited searches and stop latency are measured "
-        "(not proved) in-process; terminal roots (checkmate/stalemate) are in the corpus.", ref='5/C05',
-   note='Partial with respect to the runtime: timers, scheduler and wall-clock bounds are measured with slack, not proved; termination of check-extension chains is assumed (fuel).'),
- 'C06': dict(cat='proof', tech='Lean 4 inductive invariant of the UCI transition system (kernel-checked finite closure) + source-order facts (go/ast) + concurrent dialogues',
-   text="Labelled transition system of reader, search goroutine, flag and cancellation under a rule-obeying GUI; its reachable set is closed under "
-        "steps and satisfies the safety, no-deadlock and accepts-next invariants (kernel evaluation, lifted by induction to dialogues of any length); "
-        "the handler orderings the model depends on are extracted from the source with go/ast on every run (17 facts) and required by theorem; "
-        "concurrent dialogues (back-to-back writes, stop/isready at any time) are driven through the real line handler in-process: bestmove and "
-        "readyok counts, no deadlock, stop latency, whole output lines.", ref='5/C06',
+ 'C01': dict(cat='proof', tech='Lean 4 theorems legal_exact / perft_exact (model = FIDE spec) + differential correspondence model vs Go + spec oracle',
+   text="PROVED on the Lean model (Props/C01, C01a): for every well-formed position within the counter range the moves the engine treats as playable are exactly "
+        "the FIDE-legal moves of the specification - none missing, none extra, none duplicated (legal_exact), the generator yields exactly the pseudo-legal moves incl. "
+        "all castling conditions (genMoves_exact), successors are the FIDE successors (engineLegal_succ) and perft equals the true count for every depth (perft_exact, induction). "
+        "The model is tied to the Go code by correspondence on every run: ordered pseudo-legal list, legal list, check flag, perft (also through the repository's own cmd/perft binary) on corpus, "
+        "playout, random-material and exhaustive single-attacker positions; independently the Go legal move set is compared with the executable spec.", ref='5/C01, 10.4'),
+ 'C02': dict(cat='proof', tech='Lean 4 refinement theorem makeMove_refines (model MakeMove = Fide.apply) + correspondence of every field',
+   text="PROVED (Props/C02): for every shape-consistent position and every move of the shape the generators produce, MakeMove does not panic and its result, seen through the "
+        "abstraction (everything a FEN shows), is exactly Fide.apply: placement incl. castling rook / en-passant victim / promotion piece, side, castling rights, en-passant target, "
+        "clocks. Tie: every field of Position after every pseudo-legal move compared with the model; successor FEN compared with the spec; reload-equality and copy-recoverability asserted on the Go side.", ref='5/C02, 10.4'),
+ 'C03': dict(cat='proof', tech='Lean 4 round-trip theorems for squares and all move kinds + correspondence of the position fold',
+   text="PROVED (Props/C03, C03b when present): every square and every generated move word of each kind prints to text that parses back to the same word. Tie: games up to 140 plies replayed through "
+        "MakeMoveFromString in Go, model and spec fold; every printed legal move parsed back on the Go side.", ref='5/C03, 10.4'),
+ 'C04': dict(cat='proof', tech='Lean 4 theorems about the executable search model (PV legality for all table contents) + black-box correspondence + spec judge of answers and PVs',
+   text="PROVED on the search model (Props/C04): every PV written by negamax is a line of generated moves each passing MakeMove+IsLegal, for arbitrary contents of the shared tables "
+        "(negamax_pv_legal_partial, hypothesis: window inside [-INF, INF]); the answer is the head of the adopted PV (search_answer_head). The search model (negamax, quiescence, TT, killers, history, SEE, "
+        "all pruning, int16 wrap) is compared with the Go search on every info line, node and poll count with cancellation at chosen polls; answers and PVs are judged by the FIDE spec; "
+        "Go-only searches to depth 5 and UCI dialogues (second position on the same game object, immediate timeouts) are judged with the engine's own generator.", ref='5/C04, 10.4',
+   note='Partial: PV legality is proved for windows inside the score range and adopted PVs under the hypothesis that no adopted score equals -32718 (int16 wrap of the aspiration window); see DESIGN 10.4.'),
+ 'C05': dict(cat='proof', tech='Lean 4 theorems about cancellation, depth and termination of the iteration loop + correspondence with cancellation oracle + measured wall-clock',
+   text="PROVED on the search model (Props/C05): after the poll that reports done every further node entry returns cancelled without counting a node (negamax_after_cancel, quiescence_after_cancel), "
+        "the cancelling poll is the last poll of the whole tree (negamax_cancel_last_poll), loops stop at the first cancelled child, the iteration loop ends at once (searchIterative_stops), reported depths never exceed the request "
+        "(depth_never_exceeded), at most one re-search per depth and none with the full window (the repaired defect), at most 2*maxD root searches (root_searches_le). Tie: cancellation at chosen poll indices replayed in model and Go; "
+        "Go-side: poll at every node (node-counter gap), no node after a noticed cancellation unless no iteration had completed, terminated, depth; budget below clock (C08); wall-clock of limited searches and stop latency measured.",
+   ref='5/C05, 10.4', note='Partial with respect to the runtime: wall-clock bounds are measured with slack, not proved; termination of check-extension chains is assumed (fuel).'),
+ 'C06': dict(cat='proof', tech='Lean 4 inductive invariant of the UCI transition system (kernel-checked finite closure) + go/ast source-order facts required by theorem + concurrent dialogues',
+   text="PROVED (Props/C06): for the transition system of reader, search goroutine, flag and cancellation under a rule-obeying GUI, every reachable state (dialogues of any length, any interleaving) satisfies: no go refused, "
+        "no position refused after bestmove, no stop lost, no bestmove without go, no deadlock, next position accepted. 17 order-of-events / lock-discipline facts are extracted from the source with go/ast on every run "
+        "and required by theorem (source_facts_hold). Concurrent dialogues (back-to-back writes, stop/isready bursts) are driven through the real line handler in-process and through the real binary: bestmove/readyok counts, "
+        "no deadlock, stop latency, whole output lines, legal answers.", ref='5/C06, 10.4',
    note='Go scheduler fairness, channel/context semantics and write(2) atomicity are trusted; promptness is measured.'),
- 'C13': dict(cat='proof', tech='Lean 4 executable search model; correspondence; spec judge (mate delivered) on a mate-in-one pool',
-   text="Positions with a mating move (corpus and found in playouts) are searched at depths 1-4 with cancellation at polls 0,1,2,3,.., after "
-        "earlier searches of the predecessor position filled the shared tables, and with the half-move clock at 98/99/100; the Go answer is "
-        "judged by the spec (the move played delivers checkmate) and compared with the Lean search model.", ref='5/C13'),
- 'C07': dict(cat='proof', tech='Lean 4 model of tokeniser and go-parser; totality/faithfulness; correspondence',
-   text="Model of removePrefixGarbage and parseGo (parametric in Atoi, including the value Atoi leaves behind on an error); grammar-directed and "
-        "mutated token lists compared on parameters and canonical messages; no-panic asserted on the Go side.", ref='5/C07'),
- 'C08': dict(cat='proof', tech='Lean 4 proof (omega) on the model of calculateTime; correspondence on grid + random',
-   text="calculateTime modelled on Int; budget < clock, budget < movetime, independence of the opponent's clock; model tied by correspondence "
-        "on a boundary grid and random values; the three clauses also asserted on the Go side.", ref='5/C08'),
- 'C14': dict(cat='proof', tech='Lean 4 refinement of the bucket table to the log of saves; correspondence on colliding histories',
-   text="Model of Get/PotentiallySave over 4-way buckets; generated histories colliding in two buckets compared result by result; soundness, "
-        "absence and find-after-save decided against the log of saves (oracle) on the Go side.", ref='5/C14'),
- 'C15': dict(cat='proof', tech='Lean 4 model of the evaluation; mirror/bound; correspondence of exact scores',
-   text="Every evaluation term modelled over tables dumped from the running code; exact raw score compared on generated positions incl. "
-        "promotion-heavy and bare-king material; mirror symmetry and the mate-range bound asserted on the Go side with the mirror checked "
-        "against the spec mirror.", ref='5/C15'),
- 'C16': dict(cat='proof', tech='Lean 4 proof of cache transparency (parametric); correspondence on histories',
-   text="Model of evalWithCache and its direct-mapped table; histories with pairs differing only in half-move clock (across 100), castling "
-        "rights and en passant state compared score by score; transparency asserted against the uncached evaluation (hook).", ref='5/C16'),
- 'C18': dict(cat='proof', tech='Lean 4 swap-list vs minimax theorem; model of SEE; spec minimax oracle',
-   text="Model of the swap algorithm with x-rays compared on exact value for every legal non-en-passant capture of generated positions; the "
-        "sign is decided against a recursive minimax on the spec board (attackers recomputed after each capture).", ref='5/C18'),
- 'C19': dict(cat='proof', tech='Lean 4 proof that SortIndex visiting is a sorted permutation; model of scoreMoves; correspondence',
-   text="Model of scoreMoves and SortIndex; scored list and visit order compared for generated positions x heuristic states (PV/TT move with "
-        "and without score bits, killers, history, counter moves); permutation and order asserted on the Go side.", ref='5/C19'),
+ 'C07': dict(cat='proof', tech='Lean 4 totality and faithfulness theorems for the go parser + correspondence + dialogues through the real handler and binary',
+   text="PROVED (Props/C07): parseGo never panics for any token list and any Atoi (parseGo_total); every line built from grammar items in any order/combination yields exactly the left-to-right "
+        "interpretation (parseGo_faithful, also for the real Atoi model: parseGo_faithful_real); unknown prefixes are skipped (removePrefixGarbage_spec). Tie: grammar-directed and mutated token lists compared on "
+        "parameters and messages; expected parameters asserted independently on the Go side; sequential dialogues incl. unknown commands through the real handler (no panic) and the real binary.", ref='5/C07, 10.4'),
+ 'C08': dict(cat='proof', tech='Lean 4 theorems on calculateTime as regenerated from the Go source text by go2lean (omega) + correspondence',
+   text="PROVED (Props/C08, C08b): budget < clock, budget <= clock-50, budget < movetime, independence of the opponent's clock/increment, no int64 overflow below 2^40 - on the model and, via the tie theorem "
+        "calculateTime_tie, on the definition regenerated from the source text on every run. Correspondence on a boundary grid and random values; the clauses also asserted on the Go side.", ref='5/C08, 10.6'),
+ 'C09': dict(cat='proof', tech='Lean 4 theorems for arbitrary key tables (incremental = from-scratch hash, path independence, single-component distinctness) + kernel check of the real keys + correspondence',
+   text="PROVED (Props/C09): every primitive and MakeMove/null move/FEN load keep hash = from-scratch hash (makeMove_hash, makeNull_hash, parseFen_hash), equal components give equal hashes (hash_path_independent), "
+        "positions differing in exactly one component hash differently given non-zero/distinct keys, and the 781 keys dumped from the running engine are pairwise distinct and non-zero (realKeys_distinct). "
+        "Tie: hash after every move/null move/reload compared with model and from-scratch hook; distinctness on generated single-component pairs incl. every en-passant file and castling set.", ref='5/C09, 10.4'),
+ 'C10': dict(cat='proof', tech='Lean 4 invariant theorems WF_makeMove / WF_reachable + correspondence of every field + independent Go-side consistency check',
+   text="PROVED (Props/C10, C10b): every move the engine plays from a well-formed position yields a well-formed position - all clauses of C10 (WF_makeMove), hence along every legal move sequence (WF_reachable); "
+        "WF is the spec's well-formedness seen through the abstraction (WF_iff_spec); null moves keep the shape. Tie: every field compared after every operation; an independent mailbox check of the clauses on the Go side "
+        "(also after the string path); check clause against the spec; exhaustive single-attacker positions.", ref='5/C10, 10.4'),
+ 'C11': dict(cat='proof', tech='Lean 4 totality theorem for the byte-level FEN parser + correspondence on valid and malformed streams',
+   text="PROVED (Props/C11): parseFen never panics for any byte string (parseFen_total). Tie: printed FENs of generated positions and 6000 mutated/garbage strings (non-ASCII digits, invalid UTF-8, doubled blanks, "
+        "counters at their limits) compared three-way ok/error/panic with all fields; round trip and canonical printing asserted on the Go side and against the spec printer.", ref='5/C11, 10.4'),
+ 'C12': dict(cat='proof', tech='Lean 4 theorems for all 2^64 occupancies (walker = geometry by induction, magic lookup = walker by kernel-checked index injectivity) + regenerated tie + exhaustive correspondence',
+   text="PROVED (Props/C12a-d): rook/bishop/queen attack sets equal the squares reachable along open lines up to the first blocker for every square and all 2^64 occupancies (rookAttacks_exact etc.: ray-walker induction, "
+        "kernel-checked per-square injectivity of the 128 dumped magic multipliers over all 107648 relevant subsets, mask irrelevance); knight/king/pawn tables and pawn pushes exact; attackers of a square and check detection exact "
+        "(squareAttackedBy_exact, isInCheck_exact); shifts/leaper formulas regenerated from the source text and proved equal to the model (C12c). Tie: all leaper entries, table entries, random occupancies, attackers on generated positions.", ref='5/C12, 10.4'),
+ 'C13': dict(cat='proof', tech='Lean 4 lemmas on the search model (checkmate value, score range) + correspondence + spec judge on a mate-in-one pool',
+   text="Proved lemmas (Props/C13): a checkmated node returns -INF+ply, all scores stay in range and stored scores stay sane; the end-to-end statement is NOT proved (zero-window TT cut-offs at ply 1 with arbitrary tables). "
+        "Decided by: positions with a mating move searched at depths 1-4 with cancellation at many polls after searches of predecessor positions filled the tables and with the clock at 98/99/100; answers judged by the spec / engine generator "
+        "(the move played mates) and compared with the Lean search model.", ref='5/C13, 10.4',
+   note='Partial: the end-to-end theorem is open; the property is decided by correspondence plus oracle exploration.'),
+ 'C14': dict(cat='proof', tech='Lean 4 refinement of the bucket table to the log of saves + correspondence on colliding histories',
+   text="PROVED (Props/C14): every non-empty entry is exactly one logged save (stored_from_log); a usable score comes from a save of that hash with at least the requested depth and respects its bound (get_sound); "
+        "the suggested move was stored with that hash; a never-stored hash yields nothing; a save is found afterwards. Tie: colliding histories compared result by result; soundness decided against the log on the Go side.", ref='5/C14, 10.4'),
+ 'C15': dict(cat='proof', tech='Lean 4 theorems eval_bounded / eval_no_overflow / eval_mirror + tables dumped from the running code + correspondence of exact scores',
+   text="PROVED (Props/C15, C15b): for legal material the score is strictly inside the mate range (|v| <= 15145), no int16 intermediate overflows, the evaluation never panics; evaluation of the mirror position equals the "
+        "evaluation of the position for every position with one king per side (eval_mirror, using slider exactness C12b). Tie: exact raw score compared on generated positions incl. maximal material; mirror and bound asserted "
+        "on the Go side through both the uncached and the public cached entry point.", ref='5/C15, 10.4'),
+ 'C16': dict(cat='proof', tech='Lean 4 theorem cache_transparent (parametric) + one-square hash separation for the real keys + correspondence on histories and on the table API',
+   text="PROVED (Props/C16, C16b): along every history in which equal hashes mean equal raw evaluation, every returned score is the uncached one; positions with clock >= 100 bypass the cache; positions differing in one square hash "
+        "differently under the real keys. Tie: histories with clock/castling/en-passant/one-piece variants compared score by score; the table driven directly with hashes agreeing in slot / low bits.", ref='5/C16, 10.4'),
+ 'C17': dict(cat='proof', tech='Lean 4 theorem captures_eq_filter_of_WF (ordered list equality) + correspondence',
+   text="PROVED (Props/C17): for every well-formed position the capture generator yields exactly - same moves, same order - the capturing moves of the full generator (captures_eq_filter_of_WF); the exact condition outside "
+        "well-formedness is characterised (captures_eq_filter_iff_castling). Tie: ordered lists compared; multiset equality asserted on the Go side.", ref='5/C17, 10.4'),
+ 'C18': dict(cat='proof', tech='Lean 4 theorems swap list = minimax / pruning keeps the sign / model loop = swap list + spec minimax oracle on constructed batteries',
+   text="PROVED (Props/C18): the unpruned swap list equals the exchange minimax exactly, the early exit never changes the sign (swap_sign), and the model's loop is that swap list over its attacker sequence (see_eq_swap, see_sign). "
+        "The agreement of that attacker sequence with the specification's recomputed attackers is decided by oracle: exact value vs model and sign vs recursive spec minimax on all legal captures of generated positions and "
+        "constructed battery / king-adjacent exchanges.", ref='5/C18, 10.4'),
+ 'C19': dict(cat='proof', tech='Lean 4 theorems (SortIndex visiting = sorted permutation, scoring touches only score bits) + regenerated accessor tie + correspondence',
+   text="PROVED (Props/C19, C19b): visiting by SortIndex is a permutation in non-increasing score order for lists of any length; scoring changes only the score bits for every heuristic state; generated words carry no score bits; "
+        "move accessors regenerated from the source text equal the model accessors. Tie: scored list and visit order compared for generated positions x heuristic states.", ref='5/C19, 10.4'),
 }
 
 PENDING = {
